@@ -10,6 +10,8 @@
     <id>.<k> S <spec observation>
 -/
 import ChumskyModel.Model.Spec
+import ChumskyModel.Model.Text
+import ChumskyModel.Model.Pratt
 open Chumsky
 
 abbrev P := StateT (List String) (Except String)
@@ -370,11 +372,102 @@ def runCase (c : Case) (out : IO.FS.Stream) : IO Unit := do
     out.putStrLn s!"{c.id}.{k} S {renderSpec (pegTop fuel env c.main)}"
     k := k + 1
 
+/-! ### pratt (C09):  PR <id> <ek> <kind> <mode> <fuel> A <atom> O <n> (infixl|infixr|prefix|postfix) <bp> <op> ... I <inputspec> -/
+
+def prattOpP : P PrattOp := do
+  match (← tok) with
+  | "infixl" => do let bp ← nat; pure (.infix true bp (← gP))
+  | "infixr" => do let bp ← nat; pure (.infix false bp (← gP))
+  | "prefix" => do let bp ← nat; pure (.prefix bp (← gP))
+  | "postfix" => do let bp ← nat; pure (.postfix bp (← gP))
+  | t => throw s!"bad pratt operator {t}"
+
+def prattCase : P (Case × G × List PrattOp) := do
+  let id ← tok
+  let ek ← match (← tok) with
+    | "rich" => pure ErrKind.rich | "simple" => pure ErrKind.simple
+    | "cheap" => pure ErrKind.cheap | "empty" => pure ErrKind.empty
+    | t => throw s!"bad error kind {t}"
+  let (kind, gap) ← match (← tok) with
+    | "slice" => pure (InKind.slice, 0) | "str" => pure (InKind.str, 0)
+    | t => throw s!"bad input kind {t}"
+  let mode ← match (← tok) with
+    | "parse" => pure Mode.emit | "check" => pure Mode.check
+    | t => throw s!"bad mode {t}"
+  let fuel ← nat
+  let a ← tok
+  if a != "A" then throw "expected A"
+  let atom ← gP
+  let o ← tok
+  if o != "O" then throw "expected O"
+  let n ← nat
+  let mut ops := []
+  for _ in [0:n] do ops := (← prattOpP) :: ops
+  let i ← tok
+  if i != "I" then throw "expected I"
+  let inputs ← inputsP
+  pure ({ id, ek, kind, gap, mode, fuel, defs := [], main := atom, inputs, hasMemo := false }, atom, ops.reverse)
+
+/-! ### text parsers (C14):  T <id> <char|u8> <parser> <nparams> <params..> I <inputspec> -/
+
+def textCase : P (String × Text.CC × String × List Nat × List (List Nat)) := do
+  let id ← tok
+  let cc ← match (← tok) with
+    | "char" => pure Text.charCC | "u8" => pure Text.u8CC
+    | t => throw s!"bad text instance {t}"
+  let pname ← tok
+  let params ← natList
+  let i ← tok
+  if i != "I" then throw "expected I"
+  let inputs ← inputsP
+  pure (id, cc, pname, params, inputs)
+
+def runText (cc : Text.CC) (pname : String) (params : List Nat) (toks : List Nat) : String :=
+  let r := params.headD 10
+  let plain (res : Option Nat) : String :=
+    match res with | some e => s!"ok 0 {e} {e}" | none => "none"
+  match pname with
+  | "ws" => plain (Text.whitespace cc toks 0)
+  | "iws" => plain (Text.inlineWhitespace cc toks 0)
+  | "digits" => plain (Text.digits cc r toks 0)
+  | "int" => plain (Text.int cc r toks 0)
+  | "aident" => plain (Text.asciiIdent cc toks 0)
+  | "uident" => plain (Text.unicodeIdent cc toks 0)
+  | "akw" => plain (Text.asciiKeyword cc params toks 0)
+  | "ukw" => plain (Text.unicodeKeyword cc params toks 0)
+  | "newline" => plain (Text.newline cc toks 0)
+  | "pad_int" => (match Text.padded cc (Text.int cc r) toks 0 with
+      | some (s, e, en) => s!"ok {s} {e} {en}" | none => "none")
+  | "pad_aident" => (match Text.padded cc (Text.asciiIdent cc) toks 0 with
+      | some (s, e, en) => s!"ok {s} {e} {en}" | none => "none")
+  | other => s!"ERR unknown-parser-{other}"
+
 partial def loop (inp out : IO.FS.Stream) : IO Unit := do
   let line ← inp.getLine
   if line.isEmpty then return ()
   let toks := (line.trimAscii.toString.splitOn " ").filter (· != "")
   if toks.isEmpty then loop inp out else
+  if toks.head? == some "PR" then
+    match (prattCase.run toks.tail) with
+    | .ok ((c, atom, ops), _) =>
+      let mut k := 0
+      for ts in c.inputs do
+        let env := mkEnv c ts
+        out.putStrLn s!"{c.id}.{k} M {renderTop (parseTopPratt c.fuel env c.mode atom ops)}"
+        out.putStrLn s!"{c.id}.{k} S {renderSpec (pegTopPratt c.fuel env atom ops)}"
+        k := k + 1
+    | .error e => out.putStrLn s!"ERR {e} :: {line.trimAscii.toString}"
+    loop inp out
+  else if toks.head? == some "T" then
+    match (textCase.run toks.tail) with
+    | .ok ((id, cc, pname, params, inputs), _) =>
+      let mut k := 0
+      for ts in inputs do
+        out.putStrLn s!"{id}.{k} M {runText cc pname params ts}"
+        k := k + 1
+    | .error e => out.putStrLn s!"ERR {e} :: {line.trimAscii.toString}"
+    loop inp out
+  else
   match (caseP.run toks) with
   | .ok (c, _) => runCase { c with hasMemo := caseHasMemo toks } out
   | .error e => out.putStrLn s!"ERR {e} :: {line.trimAscii.toString}"
